@@ -58,7 +58,7 @@ func (a ConstInt16) ConvertConstScalar(t ScalarType) ConstScalar {
   case ConstInt16Type:
     return a
   default:
-    return NewConstScalar(t, a.GetFloat64())
+    return convertConstScalar(a, t)
   }
 }
 /* stringer
